@@ -385,5 +385,25 @@ def r9_dead_parameters(chk: Check) -> None:
     shared.dead_parameter_rule(chk, "C14.R9", ("transport/", "auths.py:", "generation/case.py:", "generation/overrides.py:", "engine/context.py:", "engine/phases/unit/__init__.py:", "pytest/"), "request options on their way to the wire")
 
 
+def r10_override_presence(chk: Check) -> None:
+    from . import shared
+
+    P = chk.project
+
+    def lookup(c: ast.Call) -> str | None:
+        if last_attr(c) == "get" and c.args and const_str(c.args[0]) is None:
+            return "an override value"
+        return None
+
+    shared.presence_not_truthiness_rule(
+        chk, "C14.R10", [f for f in P.module("generation/overrides.py").functions.values()], lookup,
+        "PRESENCE-NOT-TRUTHINESS(override values): `--set-query cursor=` / `--set-header X-Mode=` are accepted and mean 'send the empty value'; where the overrides of an operation are selected, an override is taken when its NAME is present (`name in overridden`), never when its value is truthy",
+        "an override with an empty value is silently dropped in every phase (for_operation feeds the unit phases and the stateful before_call): the parameter is generated or omitted instead of carrying the user's value", 0)
+    fn = P.func("generation/overrides.py:_for_parameters")
+    members = [n for n in walk_body(fn.node) if isinstance(n, ast.Compare) and len(n.ops) == 1 and isinstance(n.ops[0], (ast.In, ast.NotIn)) and unparse(n.comparators[0]) in params_of(fn.node)]
+    gets = [c for c in body_calls(fn) if lookup(c) is not None]
+    chk.decide(True if (members or gets) else None, "C14.R10", fn, "_for_parameters selects the overrides of an operation by parameter name", "selection idiom not recognised", fn.loc())
+
+
 def rules(tier: str) -> list:  # type: ignore[type-arg]
-    return [r1_overrides, r2_network_config, r3_precedence, r4_set_on_case, r5_lock, r6_strip_auth, r7_merge, r8_sanitizer_on_copies, r9_dead_parameters, rfwd_forwarding]
+    return [r1_overrides, r2_network_config, r3_precedence, r4_set_on_case, r5_lock, r6_strip_auth, r7_merge, r8_sanitizer_on_copies, r9_dead_parameters, r10_override_presence, rfwd_forwarding]
